@@ -81,6 +81,10 @@ func newDocGen(rng *rand.Rand) *docGen {
 		case "command":
 			// commands are joined with newlines: a multi-line string that begins with
 			// whitespace is outside the property on the YAML leg (yaml.v3's emitter)
+			if rng.Intn(8) == 0 {
+				// a list item that itself ends in a line break (a `- |` block scalar item): the join keeps it AND adds its own
+				return []string{"echo a\n", "two\nlines\n", "x\n\n", "cr\r\n"}[rng.Intn(4)]
+			}
 			for {
 				s := docValStrings[rng.Intn(len(docValStrings))]
 				if s != "" && s[0] != ' ' && s[0] != '\t' {
